@@ -186,6 +186,68 @@ func singleStore(a *ssa.Alloc) ssa.Value {
 	return nil
 }
 
+// helperResult: canonical form of result #idx of a spliced helper = its returned
+// expression(s), already expressed in the caller's terms.
+func helperResult(h *ssa.Function, idx int, d int) string {
+	if d > canonMaxDepth {
+		return "…"
+	}
+	set := map[string]bool{}
+	for _, b := range h.Blocks {
+		if len(b.Instrs) == 0 {
+			continue
+		}
+		if r, ok := b.Instrs[len(b.Instrs)-1].(*ssa.Return); ok && idx < len(r.Results) {
+			set[canon(r.Results[idx])] = true
+		}
+	}
+	var parts []string
+	for s := range set {
+		parts = append(parts, s)
+	}
+	sort.Strings(parts)
+	if len(parts) == 1 {
+		return parts[0]
+	}
+	return "phi(" + strings.Join(parts, "|") + ")"
+}
+
+// freeVarBinding: the value the enclosing function bound to this captured variable.
+func freeVarBinding(fv *ssa.FreeVar) ssa.Value {
+	cl := fv.Parent()
+	if cl == nil || cl.Parent() == nil {
+		return nil
+	}
+	idx := -1
+	for i, f := range cl.FreeVars {
+		if f == fv {
+			idx = i
+		}
+	}
+	if idx < 0 {
+		return nil
+	}
+	for _, b := range cl.Parent().Blocks {
+		for _, in := range b.Instrs {
+			if mc, ok := in.(*ssa.MakeClosure); ok && mc.Fn == cl && idx < len(mc.Bindings) {
+				return mc.Bindings[idx]
+			}
+		}
+	}
+	return nil
+}
+
+// storesTo lists the values stored directly into the alloc.
+func storesTo(a *ssa.Alloc) []ssa.Value {
+	var out []ssa.Value
+	for _, r := range *a.Referrers() {
+		if st, ok := r.(*ssa.Store); ok && st.Addr == a {
+			out = append(out, st.Val)
+		}
+	}
+	return out
+}
+
 // spilledParam: the alloc holds a copy of a parameter (exactly one whole-value
 // store, of a Parameter, in the entry block).
 func spilledParam(a *ssa.Alloc) ssa.Value {
@@ -214,11 +276,33 @@ func (cn *canoner) c1(v ssa.Value, d int) string {
 	case *ssa.Parameter:
 		for i, p := range x.Parent().Params {
 			if p == x {
+				// a private helper spliced into its caller: the parameter IS the caller's argument
+				if site := helperSite[x.Parent()]; site != nil && i < len(site.Call.Args) {
+					return canon(site.Call.Args[i])
+				}
 				return fmt.Sprintf("$%d", i)
 			}
 		}
 		return "$?"
 	case *ssa.FreeVar:
+		if b := freeVarBinding(x); b != nil {
+			// captured variable: name it after what the enclosing function stored in it;
+			// parameters of the enclosing function are written $^i to keep them apart from the closure's own $i
+			up := func(v ssa.Value) string { return strings.ReplaceAll(canon(v), "$", "$^") }
+			if a, ok := b.(*ssa.Alloc); ok {
+				if sv := singleStore(a); sv != nil {
+					return up(sv)
+				}
+				if pv := spilledParam(a); pv != nil {
+					return up(pv)
+				}
+				if vals := storesTo(a); len(vals) == 1 {
+					return up(vals[0])
+				}
+				return "^" + x.Name()
+			}
+			return up(b)
+		}
 		return "^" + x.Name()
 	case *ssa.Const:
 		return constStr(x)
@@ -293,8 +377,16 @@ func (cn *canoner) c1(v ssa.Value, d int) string {
 	case *ssa.Lookup:
 		return cn.c(x.X, d+1) + "[" + cn.c(x.Index, d+1) + "]"
 	case *ssa.Extract:
+		if c, ok := x.Tuple.(*ssa.Call); ok {
+			if h := isInlined(c); h != nil {
+				return helperResult(h, x.Index, d)
+			}
+		}
 		return cn.c(x.Tuple, d+1) + "#" + fmt.Sprint(x.Index)
 	case *ssa.Call:
+		if h := isInlined(x); h != nil && h.Signature.Results().Len() == 1 {
+			return helperResult(h, 0, d)
+		}
 		return cn.call(&x.Call, d)
 	case *ssa.BinOp:
 		return "(" + cn.c(x.X, d+1) + " " + x.Op.String() + " " + cn.c(x.Y, d+1) + ")"
@@ -490,11 +582,9 @@ func (cs CallSite) Value() ssa.Value {
 // callSites lists call-like instructions in fn (optionally including its closures).
 func callSites(fn *ssa.Function, deep bool) []CallSite {
 	var out []CallSite
-	for _, b := range fn.Blocks {
-		for _, in := range b.Instrs {
-			if ci, ok := in.(ssa.CallInstruction); ok {
-				out = append(out, CallSite{ci, ci.Common(), fn})
-			}
+	for _, in := range instrsOf(fn) {
+		if ci, ok := in.(ssa.CallInstruction); ok {
+			out = append(out, CallSite{ci, ci.Common(), in.Parent()})
 		}
 	}
 	if deep {
@@ -507,6 +597,7 @@ func callSites(fn *ssa.Function, deep bool) []CallSite {
 
 // callsTo returns the call sites in fn whose resolved callee name equals one of names.
 func callsTo(fn *ssa.Function, deep bool, names ...string) []CallSite {
+	mention(names...)
 	var out []CallSite
 	for _, cs := range callSites(fn, deep) {
 		n := cs.Callee()
@@ -530,24 +621,22 @@ type FieldStore struct {
 
 func fieldStores(fn *ssa.Function, deep bool, structName, field string) []FieldStore {
 	var out []FieldStore
-	for _, b := range fn.Blocks {
-		for _, in := range b.Instrs {
-			st, ok := in.(*ssa.Store)
-			if !ok {
-				continue
-			}
-			fa, ok := st.Addr.(*ssa.FieldAddr)
-			if !ok {
-				continue
-			}
-			if fieldName(fa.X.Type(), fa.Field) != field {
-				continue
-			}
-			if structName != "" && typeBase(fa.X.Type()) != structName {
-				continue
-			}
-			out = append(out, FieldStore{st, strings.TrimPrefix(canon(fa), "&"), fn})
+	for _, in := range instrsOf(fn) {
+		st, ok := in.(*ssa.Store)
+		if !ok {
+			continue
 		}
+		fa, ok := st.Addr.(*ssa.FieldAddr)
+		if !ok {
+			continue
+		}
+		if fieldName(fa.X.Type(), fa.Field) != field {
+			continue
+		}
+		if structName != "" && typeBase(fa.X.Type()) != structName {
+			continue
+		}
+		out = append(out, FieldStore{st, strings.TrimPrefix(canon(fa), "&"), in.Parent()})
 	}
 	if deep {
 		for _, a := range fn.AnonFuncs {
@@ -560,11 +649,9 @@ func fieldStores(fn *ssa.Function, deep bool, structName, field string) []FieldS
 // mapUpdates lists MapUpdate instructions whose map operand canon has the given suffix.
 func mapUpdates(fn *ssa.Function, suffix string) []*ssa.MapUpdate {
 	var out []*ssa.MapUpdate
-	for _, b := range fn.Blocks {
-		for _, in := range b.Instrs {
-			if mu, ok := in.(*ssa.MapUpdate); ok && strings.HasSuffix(canon(mu.Map), suffix) {
-				out = append(out, mu)
-			}
+	for _, in := range instrsOf(fn) {
+		if mu, ok := in.(*ssa.MapUpdate); ok && strings.HasSuffix(canon(mu.Map), suffix) {
+			out = append(out, mu)
 		}
 	}
 	return out
